@@ -83,8 +83,8 @@ def check(run, replay=None):
                 bad.append((s, k, "panic in `%s`" % call))
                 continue
             if s.tag == "overflow":
-                idx = int(p[2]) if p[0] == "r" else int(p[1]) if p[0] == "w" else 0
-                if p[0] in "rw" and not res.startswith("err "):
+                idx = int(p[2]) if p[0] in ("r", "rd") else int(p[1]) if p[0] == "w" else 0
+                if p[0] in ("r", "rd", "w") and not res.startswith("err "):
                     bad.append((s, k, "block index %d is beyond any byte-addressed card but `%s` returned %s" % (idx, call, res)))
                 if p[0] == "nb":
                     exp = min(r.card[2] // 512, (1 << 32) - 1)
@@ -94,7 +94,7 @@ def check(run, replay=None):
                     bad.append((s, k, "capacity %s, the card's CSD encodes %d bytes" % (res, r.card[2])))
                 overflow.append((s, k, call))
                 continue
-            if p[0] == "r":
+            if p[0] in ("r", "rd"):
                 nreads += 1
                 n_, idx = int(p[1]), int(p[2])
                 if not res.startswith("ok blocks"):
